@@ -106,9 +106,11 @@ theorem triM_bypassPrefix :
   have hd := stopParsing_done false _ ht
   exact ⟨aux_of_done hd, hd⟩
 
-theorem triM_bypassFailure : TriM (fun _ => True) bypassFailure (fun s => s.parsing = .done) := by
+/-- bypassFailure() that runs to its end leaves the virgin head clone installed and the sender echoing (or done) -/
+theorem triM_bypassFailure : TriM (fun _ => True) bypassFailure
+    (fun s => s.ctl (fun p sd h _ _ => (sd = .virgin ∨ sd = .done) ∧ p = .done ∧ h = .virginClone)) := by
   unfold bypassFailure
-  apply triM_seq (Q := fun s => s.ctl (fun p _ _ _ _ => p = .done))
+  apply triM_seq (Q := fun s => s.ctl (fun p sd h _ _ => (sd = .virgin ∨ sd = .done) ∧ p = .done ∧ h = .virginClone))
   · apply triM_seq (Q := fun s => s.ctl (fun p sd h _ _ => (sd = .virgin ∨ sd = .done) ∧ p = .done ∧ h = .virginClone))
     · apply triM_seq (Q := fun s => s.ctl (fun p sd h _ _ => (sd = .virgin ∨ sd = .done) ∧ p = .done ∧ h = .virginClone))
       · apply triM_seq (Q := fun s => s.parsing = .done)
@@ -121,8 +123,8 @@ theorem triM_bypassFailure : TriM (fun _ => True) bypassFailure (fun s => s.pars
             exact ⟨m.dropHead hc.1.1.1.2 hc.1.2 hc.1.1.2, aux_of_done hp, hp⟩
         · exact tri_prepEchoing.weaken (fun _ h => h) (fun _ h => ⟨h.2.2, h.1, h.2.1⟩)
       · exact tri_startSending (fun p h _ => p = .done ∧ h = .virginClone) (fun sd => sd = .virgin ∨ sd = .done) (fun _ => Or.inr rfl)
-    · exact (Tri.ctl (keeps_stopWriting true) (fr_stopWriting true) (fun p _ _ _ _ => p = .done)).weaken (fun _ h => h.2.1) (fun _ h => h)
-  · refine Tri.ctl ?_ ?_ (fun p _ _ _ _ => p = .done)
+    · exact Tri.ctl (keeps_stopWriting true) (fr_stopWriting true) _
+  · refine Tri.ctl ?_ ?_ (fun p sd h _ _ => (sd = .virgin ∨ sd = .done) ∧ p = .done ∧ h = .virginClone)
     · same_upd
     · exact fun _ => ⟨rfl, rfl, rfl, rfl, rfl⟩
 
@@ -351,11 +353,133 @@ theorem hk_seq_upd {u g : Op} (hu : ∀ s, Inv s → s.stopped = false → Inv (
   simp only [Bool.false_eq_true, if_false]
   exact hg _ k.1 k.2
 
-theorem inv_same {s t : St} (i : Inv s) (h : SameCore s t) (hb : t.canStartBypass = true → s.canStartBypass = true)
-    (ht : t.thrown = s.thrown) : Inv t :=
-  ⟨i.main.of_same h hb, by rw [ht]; exact i.calm, fun _ => by
-    by_cases hs : s.stopped = false
-    · exact (i.aux hs).of_same h
-    · sorry⟩
+theorem hu_same {u : Op} (h : ∀ s, SameCore s (u s)) (hb : ∀ s, (u s).canStartBypass = true → s.canStartBypass = true)
+    (ht : ∀ s, (u s).thrown = s.thrown) (hst : ∀ s, (u s).stopped = s.stopped) :
+    ∀ s, Inv s → s.stopped = false → Inv (u s) ∧ (u s).stopped = false :=
+  fun s i hs => ⟨⟨i.main.of_same (h s) (hb s), by rw [ht s]; exact i.calm, fun _ => (i.aux hs).of_same (h s)⟩, by rw [hst s]; exact hs⟩
+
+theorem hk_handler (e : Ev) : HK (handler e) := by
+  cases e with
+  | rdEof =>
+    apply hk_whenOp
+    refine hk_seq_upd ?_ ?_
+    · exact hu_same (fun _ => ⟨rfl, rfl, rfl, rfl, rfl, rfl, rfl, rfl, rfl, rfl, rfl, rfl, rfl, rfl, rfl, rfl, rfl, rfl⟩) (fun _ h => h) (fun _ => rfl) (fun _ => rfl)
+    · exact hk_cond hk_swanSong (hk_cond (hk_of_tk tk_parseBody) (hk_of_tk tk_throwNow))
+  | rdError =>
+    apply hk_whenOp
+    refine hk_seq_upd ?_ ?_
+    · exact hu_same (fun _ => ⟨rfl, rfl, rfl, rfl, rfl, rfl, rfl, rfl, rfl, rfl, rfl, rfl, rfl, rfl, rfl, rfl, rfl, rfl⟩) (fun _ h => h) (fun _ => rfl) (fun _ => rfl)
+    · exact hk_cond (hk_of_tk tk_throwNow) hk_swanSong
+  | consumerAbort => exact hk_whenOp hk_swanSong
+  | closed =>
+    apply hk_whenOp
+    refine hk_seq_upd ?_ ?_
+    · exact hu_same (fun _ => ⟨rfl, rfl, rfl, rfl, rfl, rfl, rfl, rfl, rfl, rfl, rfl, rfl, rfl, rfl, rfl, rfl, rfl, rfl⟩) (fun _ h => h) (fun _ => rfl) (fun _ => rfl)
+    · exact hk_swanSong
+  | initiatorAbort =>
+    apply hk_whenOp
+    refine hk_seq_upd ?_ hk_swanSong
+    intro s i hs
+    refine ⟨⟨?_, i.calm, fun _ => AuxG.of_sameAux (s := s) ⟨rfl, rfl, rfl, rfl, rfl⟩ (i.aux hs)⟩, hs⟩
+    apply i.main.setAnswer
+    · intro _ h; cases h
+    · intro h; cases h
+  | connected => exact hk_of_tk (tk_handler_plain _ trivial)
+  | wrote => exact hk_of_tk (tk_handler_plain _ trivial)
+  | produce n => exact hk_of_tk (tk_handler_plain _ trivial)
+  | prodEnd => exact hk_of_tk (tk_handler_plain _ trivial)
+  | rdIcap st h b t => exact hk_of_tk (tk_handler_plain _ trivial)
+  | rdHttpHead => exact hk_of_tk (tk_handler_plain _ trivial)
+  | rdBody bs => exact hk_of_tk (tk_handler_plain _ trivial)
+  | rdLast u => exact hk_of_tk (tk_handler_plain _ trivial)
+  | rdTrailer => exact hk_of_tk (tk_handler_plain _ trivial)
+  | rdBad => exact hk_of_tk (tk_handler_plain _ trivial)
+  | space n => exact hk_of_tk (tk_handler_plain _ trivial)
+  | timeout => exact hk_of_tk (tk_handler_plain _ trivial)
+
+theorem inv_step (s : St) (e : Ev) (i : Inv s) : Inv (step s e) := by
+  unfold step
+  split
+  · exact i
+  · rename_i hs
+    exact finish_spec _ (hk_handler e s i (by simpa using hs))
+
+theorem inv_run (s : St) (es : List Ev) (i : Inv s) : Inv (run s es) := by
+  induction es generalizing s with
+  | nil => exact i
+  | cons e es ih => exact ih _ (inv_step s e i)
+
+/-- nothing has happened yet -/
+structure Fresh (s : St) : Prop where
+  h1 : s.put = 0
+  h2 : s.consumed = 0
+  h3 : s.buf = []
+  h4 : s.prodEnded = false
+  h5 : s.outSt = .noPipe
+  h6 : s.out = []
+  h7 : s.uob = none
+  h8 : s.pending = []
+  h9 : s.recv = []
+  h10 : s.head = .none
+  h11 : s.vSending.start = 0
+  h12 : s.answer = .none
+  h13 : s.sending = .undecided
+  h14 : s.parsing = .icapHeader
+  h15 : s.outTaken = 0
+  h16 : s.thrown = false
+
+theorem Fresh.of_same {s t : St} (f : Fresh s) (h : SameCore s t) (ht : t.thrown = s.thrown) : Fresh t :=
+  ⟨h.put.trans f.h1, h.consumed.trans f.h2, h.buf.trans f.h3, h.prodEnded.trans f.h4, h.outSt.trans f.h5, h.out.trans f.h6,
+   h.uob.trans f.h7, h.pending.trans f.h8, h.recv.trans f.h9, h.head.trans f.h10, h.start.trans f.h11, h.answer.trans f.h12,
+   h.sending.trans f.h13, h.parsing.trans f.h14, h.outTaken.trans f.h15, ht.trans f.h16⟩
+
+theorem inv_fresh (s : St) (f : Fresh s) : Inv s := by
+  obtain ⟨h1, h2, h3, h4, h5, h6, h7, h8, h9, h10, h11, h12, h13, h14, h15, h16⟩ := f
+  have hans : s.answer ≠ .forward := by rw [h12]; intro h; cases h
+  have hhead : s.head ≠ .virginClone := by rw [h10]; intro h; cases h
+  refine ⟨?_, h16, fun _ => ?_⟩
+  · constructor
+    · rw [h1]; exact Nat.zero_le _
+    · rw [h1, h2]; exact Nat.le_refl _
+    · rw [h3, h1, h2]; simp
+    · intro h; rw [h4] at h; cases h
+    · intro _; exact ⟨h6, h7, h8, h9⟩
+    · intro _; exact ⟨h5, h11, hans⟩
+    · intro h; rw [h10] at h; cases h
+    · intro h; rw [h10] at h; cases h
+    · intro h; rw [h10] at h; cases h
+    · intro h; rw [h5] at h; cases h
+    · intro _; exact ⟨h2, hans, h6, hhead⟩
+    · intro h; rw [h13] at h; cases h
+    · rw [h15]; exact Nat.zero_le _
+    · intro h; rw [h5] at h; rcases h with h | h <;> cases h
+  · constructor
+    · intro h; rw [h14] at h; cases h
+    · intro _; exact ⟨hhead, h5⟩
+    · intro h; rw [h14] at h; cases h
+
+theorem fresh_init (cfg : Cfg) (v : Bytes) : Fresh (init cfg v) := by
+  have f0 : Fresh ({ cfg := cfg, v := v } : St) := ⟨rfl, rfl, rfl, rfl, rfl, rfl, rfl, rfl, rfl, rfl, rfl, rfl, rfl, rfl, rfl, rfl⟩
+  have s1 : ∀ s, SameCore s (initBody s) ∧ (initBody s).thrown = s.thrown := by
+    intro s; unfold initBody; split
+    · exact ⟨⟨rfl, rfl, rfl, rfl, rfl, rfl, rfl, rfl, rfl, rfl, rfl, rfl, rfl, rfl, rfl, rfl, rfl, rfl⟩, rfl⟩
+    · exact ⟨SameCore.rfl' s, rfl⟩
+  have s2 : ∀ s, SameCore s (initFlags s) ∧ (initFlags s).thrown = s.thrown :=
+    fun s => ⟨⟨rfl, rfl, rfl, rfl, rfl, rfl, rfl, rfl, rfl, rfl, rfl, rfl, rfl, rfl, rfl, rfl, rfl, rfl⟩, rfl⟩
+  have s3 : ∀ s, SameCore s (initPreview s) ∧ (initPreview s).thrown = s.thrown := by
+    intro s; unfold initPreview; split
+    · exact ⟨⟨rfl, rfl, rfl, rfl, rfl, rfl, rfl, rfl, rfl, rfl, rfl, rfl, rfl, rfl, rfl, rfl, rfl, rfl⟩, rfl⟩
+    · exact ⟨SameCore.rfl' s, rfl⟩
+  have s4 : ∀ s, SameCore s (initRetries s) ∧ (initRetries s).thrown = s.thrown := by
+    intro s; unfold initRetries; dsimp only; split
+    · exact ⟨SameCore.rfl' s, rfl⟩
+    · exact ⟨⟨rfl, rfl, rfl, rfl, rfl, rfl, rfl, rfl, rfl, rfl, rfl, rfl, rfl, rfl, rfl, rfl, rfl, rfl⟩, rfl⟩
+  unfold init
+  exact (((f0.of_same (s1 _).1 (s1 _).2).of_same (s2 _).1 (s2 _).2).of_same (s3 _).1 (s3 _).2).of_same (s4 _).1 (s4 _).2
+
+theorem inv_init (cfg : Cfg) (v : Bytes) : Inv (init cfg v) := inv_fresh _ (fresh_init cfg v)
+
+/-- every state the transaction can reach satisfies the invariants -/
+theorem inv_reachable (cfg : Cfg) (v : Bytes) (es : List Ev) : Inv (run (init cfg v) es) := inv_run _ es (inv_init cfg v)
 
 end SquidModel.Icap
